@@ -93,7 +93,7 @@ impl SimpleCase for RopeCase {
     match self {
       RopeCase::Obs(e) => {
         let Some(flat) = e.flat() else { if !o.starts_with("panic") { v.push(finding("out-of-domain-accepted", format!("the program is out of domain (bad slice / missing line) but evaluated: {o}"))); } return v };
-        if o.starts_with("panic") || o.contains('!') || o.contains(" U") || o.contains(",U") { v.push(finding("no-panic-in-domain", format!("in-domain program on {:?}: {}", flat, &o[..o.len().min(200)]))); return v }
+        if o.starts_with("panic") || o.contains('!') || o.contains(" U") || o.contains(",U") { v.push(finding("no-panic-in-domain", format!("in-domain program on {:?}: {}", flat, trunc(&o, 200)))); return v }
         // expected observation from the flat string
         let len = flat.len();
         let bytes: Vec<String> = (0..len + 2).map(|i| flat.as_bytes().get(i).map(|x| x.to_string()).unwrap_or("-".into())).collect();
@@ -194,7 +194,7 @@ pub fn exhaustive(steps: usize, np: usize, d: &mut Driver) -> (u64, Vec<Finding>
     for (c, m) in cases.iter().zip(resp) {
       let o = c.run_impl(); n += 1;
       for f in c.oracle(&o) { if fails.len() < 5 { fails.push(finding(&format!("exhaustive-{}", f.clause), format!("{:?}: {}", c, f.detail))); } }
-      if o[0] != m && fails.len() < 5 { fails.push(finding("exhaustive-corr", format!("{:?}: impl {} model {}", c, &o[0][..o[0].len().min(120)], &m[..m.len().min(120)]))); }
+      if o[0] != m && fails.len() < 5 { fails.push(finding("exhaustive-corr", format!("{:?}: impl {} model {}", c, trunc(&o[0], 120), trunc(&m, 120)))); }
     }
   }
   (n, fails)
